@@ -30,7 +30,9 @@ fi
 restore() { git -C /repo checkout -- . ; git -C /repo clean -fdq src ; }
 trap restore EXIT
 
+GIVEN=1
 if [ ${#NAMES[@]} -eq 0 ]; then
+  GIVEN=0
   if [ $SEEDED = 1 ]; then
     for d in "$DIR"/*/; do [ -f "$d/patch.diff" ] && NAMES+=("$(basename "$d")"); done
   else
@@ -43,7 +45,7 @@ prop_of() {
 }
 patch_of() { if [ $SEEDED = 1 ]; then echo "$DIR/$1/patch.diff"; else echo "$DIR/$1.diff"; fi; }
 
-RES="$DIR/results.json"
+RES="$DIR/results.json"; [ $GIVEN = 1 ] && RES="$DIR/results_partial.json"   # a partial run never overwrites the full table
 echo "[" > "$RES.tmp"; first=1; missed=0
 for name in "${NAMES[@]}"; do
   prop=$(prop_of "$name"); patch=$(patch_of "$name")
